@@ -338,7 +338,7 @@ fn run_session(c: &Session, ctx: &mut CaseCtx) -> Result<Result<(), String>, Lsp
                 }
             }
             Step::OddUri { which, text } => {
-                let traversal = format!("file://{}/..%2F..%2Foutside%2Fleak.md", sb.ws_file("").display());
+                let traversal = format!("file://{}/..%2F..%2F..%2F..%2Foutside%2Fleak.md", sb.ws_file("").display());
                 let encoded_sep = format!("file://{}/sub%2Fdir%2Fnote.md", sb.ws_file("").display());
                 let uri: &str = match *which as usize % (ODD_URIS.len() + 2) {
                     k if k < ODD_URIS.len() => ODD_URIS[k],
